@@ -304,6 +304,7 @@ def run(facts, rep, tier, file_filter=None, pid="C02"):
         party_indices(facts, rep)
         knowledge_typing(facts, rep)
         party_arithmetic(facts, rep)
+        component_locality(facts, rep)
         local_status_is_disjunctive(facts, rep)
         # every designated output party receives the result: the party tested for membership is the receiver (shared with C03.R)
         from . import C03
@@ -783,3 +784,95 @@ def _additive_cone(b, fl, op, at, depth=0, seen=None):
                 for o in rv[2]:
                     _additive_cone(b, fl, o, (bb, j), depth + 1, seen)
     return {x for x in seen if isinstance(x, int)}
+
+
+# ----------------------------------------------------------------------------- C02.H
+# functions whose per-component results form a 3-out-of-3 sharing: component i may use what party i holds (shares i, i+1)
+THREE_OF_THREE_BUILDERS = {"mpc::mpc_arithmetic::private_product": "ABY3 multiplication: z_i = x_i*y_i + x_i*y_(i+1) + x_(i+1)*y_i"}
+
+
+def _range_loop_vars(b):
+    """locals bound to the counter of `for v in a..b` loops: local -> loop blocks"""
+    out = {}
+    for h, blocks in C.loops(b):
+        for bb in blocks:
+            t = b.term(bb)
+            if t["k"] == "call" and (callee_name(t) or "").endswith("::next") and "Range" in (callee_name(t) or ""):
+                out[t["dest"][0]] = blocks   # the Option returned by next(): `(_n as Some).0` is the counter
+                for bb2, j2, pl, rv in b.assigns():
+                    if bb2 in blocks and len(pl) == 1 and rv[0] == "use" and rv[1][0] != "k" and rv[1][1][0] == t["dest"][0] \
+                            and len(rv[1][1]) > 1:
+                        out[pl[0]] = blocks
+    return out
+
+
+def component_locality(facts, rep):
+    from .. import intexpr as IE
+    rep.rule("C02.H", "component-wise locality: in a loop over the party index i, a locally computed component i of a replicated "
+                      "sharing may only use share i of its inputs (both holders, parties i and i-1, must be able to compute it); "
+                      "in the product protocol (3-out-of-3 result) shares i and i+1.  Checked for every share index that is a "
+                      "function of the loop variable (tuple_get(x, e(i)) and reads of share vectors), evaluated for i = 0,1,2")
+    n = 0
+    for name, b in mpc_bodies(facts):
+        if "/mpc/" not in b.file:
+            continue
+        lv = _range_loop_vars(b)
+        if not lv:
+            continue
+        fl = Flow(facts, b, EXTRA)
+        three = name in THREE_OF_THREE_BUILDERS
+        # share vectors: Vec<Node> whose stores are pushes of tuple_get(x, identity) inside a range loop
+        sharevecs = {}
+        for root, sts in fl.stores.items():
+            if "Vec<graphs::Node>" not in b.local_ty(root):
+                continue
+            ok = bool(sts)
+            for (sb, ops) in sts:
+                good = False
+                for o in ops:
+                    for oo in fl.origins(o, (sb, None)):
+                        if oo[0] == "call" and callee_name(b.term(oo[1])) in ("graphs::Graph::tuple_get", "graphs::Node::tuple_get"):
+                            e = IE.build(fl, b, b.term(oo[1])["args"][-1])
+                            vs_ = IE.variables(e)
+                            if len(vs_) == 1 and list(vs_)[0][0] in lv and \
+                                    all(IE.evaluate(e, {list(vs_)[0]: i}) == i for i in range(3)):
+                                good = True
+                ok = ok and good
+            if ok:
+                sharevecs[root] = True
+        k = 0
+        for bb, t in b.calls():
+            cn = callee_name(t) or ""
+            if b.is_cleanup(bb):
+                continue
+            e = None
+            what = None
+            if cn in ("graphs::Graph::tuple_get", "graphs::Node::tuple_get") and t["args"][-1][0] != "k":
+                e = IE.build(fl, b, t["args"][-1])
+                what = "tuple_get"
+            elif cn.endswith("::index") and len(t["args"]) == 2 and t["args"][1][0] != "k" and t["args"][0][0] != "k" \
+                    and fl.root_of(t["args"][0][1][0]) in sharevecs:
+                e = IE.build(fl, b, t["args"][1])
+                what = "share vector read"
+            if e is None or IE.unknown(e):
+                continue
+            vs_ = IE.variables(e)
+            if len(vs_) != 1:
+                continue
+            v = list(vs_)[0]
+            if v[0] not in lv or bb not in lv[v[0]]:
+                continue
+            vals = [IE.evaluate(e, {v: i}) for i in range(3)]
+            if any(x is None for x in vals):
+                continue
+            n += 1
+            allowed = [{i, (i + 1) % 3} if three else {i} for i in range(3)]
+            ok = all(vals[i] in allowed[i] for i in range(3))
+            rep.ob("C02.H", "%s|%s#%d" % (name, what.split()[0], k), ok,
+                   "%s index for i=0,1,2 is %s" % (what, vals) if ok else
+                   "%s uses share %s for i=0,1,2, but component i may only use share%s: a holder of the result component does "
+                   "not hold the share it is computed from (the sum over all components is unchanged, so a global evaluator "
+                   "sees nothing)" % (what, vals, "s i and i+1" if three else " i"), b.loc(bb))
+            k += 1
+    rep.tables["three_of_three_builders"] = THREE_OF_THREE_BUILDERS
+    rep.floor("C02.H", "share indices that are functions of the party loop variable", n, 30)
